@@ -14,6 +14,8 @@ type effects struct {
 	all    bool
 	heaps  map[string]bool
 	ghosts map[string]bool
+	// localHeaps: heap sorts in which the code only allocates objects and writes to objects it allocated itself
+	localHeaps map[string]bool
 }
 
 const maxInlineDepth = 6
@@ -119,7 +121,7 @@ func fnPkgPath(fn *ssa.Function) string {
 }
 
 func (fc *FnCtx) callEffects(cc *ssa.CallCommon) effects {
-	eff := effects{heaps: map[string]bool{}, ghosts: map[string]bool{}}
+	eff := effects{heaps: map[string]bool{}, ghosts: map[string]bool{}, localHeaps: map[string]bool{}}
 	addArgs := func() {
 		args := cc.Args
 		if cc.IsInvoke() {
@@ -198,6 +200,9 @@ func (fc *FnCtx) callEffects(cc *ssa.CallCommon) effects {
 		for h := range sub.heaps {
 			eff.heaps[h] = true
 		}
+		for h := range sub.localHeaps {
+			eff.localHeaps[h] = true
+		}
 		for g := range sub.ghosts {
 			eff.ghosts[g] = true
 		}
@@ -217,7 +222,7 @@ func (fr *Frame) modSetAll() modSet {
 	modSetDepth++
 	defer func() { modSetDepth-- }()
 	if modSetDepth > 6 {
-		return modSet{worlds: true, heaps: map[string]bool{}, ghosts: map[string]bool{}}
+		return modSet{worlds: true, heaps: map[string]bool{}, ghosts: map[string]bool{}, localHeaps: map[string]bool{}}
 	}
 	body := map[int]*ssa.BasicBlock{}
 	for _, b := range fr.fn.Blocks {
@@ -499,6 +504,11 @@ func (fr *Frame) builtin(b *ssa.Builtin, cc *ssa.CallCommon, args []Val, resT ty
 		if len(args) == 1 {
 			return a
 		}
+		if appendMayClobber(cc.Args[0], 0, map[ssa.Value]bool{}) {
+			// appending to a shortened view (x[:n], x[i:]) of a slice the function does not own writes into the
+			// owner's visible elements: an ownership violation (DESIGN 2.4), not expressible with value semantics
+			fc.unsupported("#own: %s appends to a re-sliced view of a slice it does not own (at %s)", fr.fn.Name(), posStr(fc.W, cc.Pos()))
+		}
 		bb := args[1]
 		switch a.S {
 		case "Bytes":
@@ -534,6 +544,10 @@ func (fr *Frame) builtin(b *ssa.Builtin, cc *ssa.CallCommon, args []Val, resT ty
 			cur = "(ite (" + op + " " + cur + " " + a.T + ") " + cur + " " + a.T + ")"
 		}
 		return Val{S: args[0].S, T: cur, Typ: args[0].Typ}
+	case "ssa:wrapnilchk":
+		// wrapper for a value-receiver method called through a pointer: panics on a nil receiver, else the pointer
+		fr.fc.safety(reach, eq(args[0].T, "0"), "nil-deref", cc)
+		return args[0]
 	case "print", "println":
 		return Val{}
 	case "recover":
@@ -624,4 +638,33 @@ func (fr *Frame) runDefers(st *State, reach string) {
 		}
 		fc.unsupported("deferred call %s in %s", cc.String(), fr.fn.Name())
 	}
+}
+
+// appendMayClobber: the append target is (through phis and earlier appends) a shortened view of a slice whose
+// backing array the function does not own, taken without a capacity limit (x[lo:hi] rather than x[lo:hi:max]).
+func appendMayClobber(v ssa.Value, depth int, seen map[ssa.Value]bool) bool {
+	if depth > 6 || seen[v] {
+		return false
+	}
+	seen[v] = true
+	switch x := v.(type) {
+	case *ssa.Slice:
+		if x.Max == nil && (x.High != nil || x.Low != nil) {
+			if _, isArr := x.X.(*ssa.Alloc); !isArr && !ownedSlice(x.X, 0) {
+				return true
+			}
+		}
+		return false
+	case *ssa.Phi:
+		for _, e := range x.Edges {
+			if appendMayClobber(e, depth+1, seen) {
+				return true
+			}
+		}
+	case *ssa.Call:
+		if b, ok := x.Call.Value.(*ssa.Builtin); ok && b.Name() == "append" && len(x.Call.Args) > 0 {
+			return appendMayClobber(x.Call.Args[0], depth+1, seen)
+		}
+	}
+	return false
 }
